@@ -1,4 +1,5 @@
 use core::mem::align_of;
+use core::ptr::NonNull;
 use core::sync::atomic::AtomicU32;
 use core::{fmt, slice};
 
@@ -51,9 +52,14 @@ impl fmt::Debug for TreeId {
 pub struct Trees<'a> {
     /// Array of level 3 entries, which are the roots of the trees
     entries: &'a [Atom<Tree>],
+    /// Start of the metadata buffer, which is larger than the entries (cache line padding)
+    buffer: NonNull<u8>,
     /// Default class for new trees or entirely free trees,
     default: Class,
 }
+
+unsafe impl Send for Trees<'_> {}
+unsafe impl Sync for Trees<'_> {}
 
 impl fmt::Debug for Trees<'_> {
     fn fmt(&self, f: &mut fmt::Formatter<'_>) -> fmt::Result {
@@ -84,7 +90,7 @@ impl<'a> Trees<'a> {
 
     pub unsafe fn metadata(&mut self) -> &'a mut [u8] {
         let len = Self::metadata_size(self.len() * TREE_FRAMES);
-        unsafe { slice::from_raw_parts_mut(self.entries.as_ptr().cast_mut().cast(), len) }
+        unsafe { slice::from_raw_parts_mut(self.buffer.as_ptr(), len) }
     }
 
     /// Initialize the tree array
@@ -97,8 +103,9 @@ impl<'a> Trees<'a> {
         assert!(buffer.len() >= Self::metadata_size(frames));
 
         let len = frames.div_ceil(TREE_FRAMES);
+        let buffer = NonNull::from(buffer).cast::<u8>();
         let entries: &mut [Atom<Tree>] =
-            unsafe { slice::from_raw_parts_mut(buffer.as_mut_ptr().cast(), len) };
+            unsafe { slice::from_raw_parts_mut(buffer.as_ptr().cast(), len) };
 
         if let Some(tree_init) = tree_init {
             for (i, e) in entries.iter_mut().enumerate() {
@@ -107,7 +114,11 @@ impl<'a> Trees<'a> {
             }
         }
 
-        Self { entries, default }
+        Self {
+            entries,
+            buffer,
+            default,
+        }
     }
 
     pub fn len(&self) -> usize {
